@@ -2056,7 +2056,7 @@ def _viol(ctx, key, what, rep, cap=3):
 
 def _correspond_histories(ctx):
     rng = random.Random(ctx.seed * 104729 + 1414)
-    specs = _hist_specs(ctx, rng, ctx.n(160, 1500))
+    specs = _hist_specs(ctx, rng, ctx.n(160, 800))
     nf = nops = 0
     for spec in specs:
         try:
@@ -2073,7 +2073,7 @@ def _correspond_histories(ctx):
 
 def _search_histories(ctx, broken):
     rng = random.Random(ctx.seed * 15485863 + 1415)
-    specs = _hist_specs(ctx, rng, ctx.n(240, 2500) * (2 if broken else 1))
+    specs = _hist_specs(ctx, rng, ctx.n(240, 1200) * (2 if broken else 1))
     nf = nops = 0
     for spec in specs:
         try:
